@@ -6,7 +6,21 @@ def nontrivial(prog_lines, answer_lines):
     return any(l.startswith("x algo") for l in prog_lines) and any(l.startswith("v ") for l in prog_lines)
 
 
+def algo_histogram(ctx):
+    """coverage statistics of the generated cases: algorithm x range kind (read back from the program files of this run)"""
+    import glob, os
+    hist = {}
+    for f in glob.glob(os.path.join(ctx["build"], "prog.algos.*.txt")):
+        for l in open(f):
+            w = l.split()
+            if len(w) > 3 and w[0] == "x" and w[1] == "algo":
+                k = w[2] + ":" + w[3]
+                hist[k] = hist.get(k, 0) + 1
+    return {"stats": {"cases_per_algorithm_and_range_kind": dict(sorted(hist.items())), "algorithms_covered": len({k.split(":")[0] for k in hist})}, "violations": []}
+
+
 PROP = {
+    "hooks": ["algo_histogram"],
     "lean_targets": ["MultiProofs.C03"],
     "lean_module": "MultiProofs.C03",
     "theorems": [
